@@ -3,6 +3,7 @@
 from __future__ import annotations
 
 import ast
+import os
 
 import z3
 
@@ -181,7 +182,9 @@ class StmtMixin:
 
     def bind(self, name, tv, frame):
         lh = (self.unit.locals or {}).get(name) if self.unit is not None else None
-        if lh and tv.k == "val" and tv.hint is None and self.tag(tv) is None and "|" not in lh and not self.in_spec:
+        if lh and os.environ.get("TXVC_DEBUG_BIND"):
+            print("[bind]", name, lh, tv.k, tv.hint, self.tag(tv) if tv.k == "val" else None, self.in_spec)
+        if lh and tv.k == "val" and tv.hint is None and self.tag(tv) is None and not self.in_spec:
             # the contract declares the type of this local: a value of another type would make the
             # operations the code applies to it raise TypeError/AttributeError (A-WD)
             self.require(self.type_fact(tv.r, lh), "TypeError", f"local {name} is a {lh}")
